@@ -78,6 +78,10 @@ func (tr *Translator) resolveType(txt string) types.Type {
 }
 
 func (tr *Translator) sortOfText(txt string) (string, types.Type) {
+	if txt == "jsonvalue" {
+		tr.jsonDecls()
+		return "JV", nil
+	}
 	if strings.HasPrefix(txt, "smt:") { // raw SMT sort
 		if strings.Contains(txt, "JV") {
 			tr.jsonDecls()
@@ -733,6 +737,10 @@ func (e *Env) evalCall(x *Call) *Val {
 		return mkVal("(select "+e.st.get(u, "MStr$elem")+" "+arg(0).E()+")", "String", types.Typ[types.String])
 	case "obase":
 		return mkVal("(obase "+arg(0).E()+")", "Int", types.Typ[types.UnsafePointer])
+	case "asString":
+		// the string held by an interface value whose dynamic type is string
+		tr.u.ensureBox("String")
+		return mkVal("(unbox_String "+ifPart(arg(0), 1)+")", "String", types.Typ[types.String])
 	case "payload":
 		// payload(ifaceValue): the pointer held by an interface value (dynamic type is some pointer type)
 		return mkVal(ifPart(arg(0), 1), "Int", types.Typ[types.UnsafePointer])
